@@ -431,6 +431,103 @@ func c09Facts2(c *Ctx) error {
 	wsrc2 := c.Src(wf.Body)
 	b("worthy_guards_zero_total", strings.Contains(wsrc2, "TotalShares.IsZero()") || strings.Contains(wsrc2, "TotalShares.IsPositive()"))
 	b("worthy_first_snapshot_short_circuits", strings.Contains(wsrc2, "if currentSnapshot == nil {"))
+	// ---- x/treasury: the two lookups of a relayer's fee entry by chain compare the SAME way (exact ==) ----
+	{
+		tk, err := c.Parse("x/treasury/keeper/keeper.go")
+		if err != nil {
+			return err
+		}
+		cmpOf := func(fn string) (string, error) {
+			fd := FindFunc(tk, "Keeper", fn)
+			if fd == nil {
+				return "", fmt.Errorf("%s not found", fn)
+			}
+			var conds []string
+			ast.Inspect(fd.Body, func(n ast.Node) bool {
+				rs, ok := n.(*ast.RangeStmt)
+				if !ok || !strings.HasSuffix(c.Src(rs.X), ".Fees") {
+					return true
+				}
+				for _, st := range rs.Body.List {
+					if is, ok := st.(*ast.IfStmt); ok {
+						conds = append(conds, c.Src(is.Cond))
+					}
+				}
+				return true
+			})
+			if len(conds) != 1 {
+				return "", fmt.Errorf("%s: %d conditions inside the loop over the fee entries, expected the one chain comparison", fn, len(conds))
+			}
+			return conds[0], nil
+		}
+		for _, fn := range []string{"GetRelayerFeesByChainReferenceID", "GetCombinedFeesForRelay"} {
+			cond, err := cmpOf(fn)
+			if err != nil {
+				return err
+			}
+			if cond != "v.ChainReferenceId == chainReferenceID" {
+				return fmt.Errorf("%s: unknown chain comparison %q (eligibility and pricing must both match the chain reference id exactly, `v.ChainReferenceId == chainReferenceID`: the invariant 'assigned => fee entry for the chain' is stated over one equality)", fn, cond)
+			}
+		}
+		b("treasury_fee_lookups_compare_chain_exactly", true)
+		// UpsertRelayerFee merges by the exact id as well (a Go map keyed by the string)
+		tms, err := c.Parse("x/treasury/keeper/msg_server.go")
+		if err != nil {
+			return err
+		}
+		up := FindFunc(tms, "msgServer", "UpsertRelayerFee")
+		if up == nil {
+			return fmt.Errorf("UpsertRelayerFee not found")
+		}
+		us := c.Src(up.Body)
+		b("treasury_upsert_merges_by_exact_chain", strings.Contains(us, "lkup[v.ChainReferenceId] = struct{}{}") && strings.Contains(us, "if _, fn := lkup[v.ChainReferenceId]; fn {"))
+	}
+
+	// ---- x/evm: the signature verifier hands the submitted signature to Ecrecover unchanged (which accepts 65 bytes only) ----
+	{
+		ek, err := c.Parse("x/evm/keeper/keeper.go")
+		if err != nil {
+			return err
+		}
+		sq := FindFunc(ek, "Keeper", "SupportedQueues")
+		if sq == nil {
+			return fmt.Errorf("SupportedQueues not found")
+		}
+		calls := Calls(sq.Body, "Ecrecover")
+		if len(calls) != 1 || len(calls[0].Args) != 2 {
+			return fmt.Errorf("SupportedQueues: expected one crypto.Ecrecover(hash, sig) call")
+		}
+		if got := c.Src(calls[0].Args[1]); got != "sig" {
+			return fmt.Errorf("SupportedQueues: the signature handed to Ecrecover is %q, not the submitted `sig` (what is verified must be what is stored: BuildCompassConsensus indexes the stored 65 bytes)", got)
+		}
+		// sig must be the closure's own parameter
+		okParam := false
+		ast.Inspect(sq.Body, func(n ast.Node) bool {
+			fl, ok := n.(*ast.FuncLit)
+			if !ok || len(Calls(fl.Body, "Ecrecover")) != 1 {
+				return true
+			}
+			for _, p := range fl.Type.Params.List {
+				for _, nm := range p.Names {
+					if nm.Name == "sig" && c.Src(p.Type) == "[]byte" {
+						okParam = true
+					}
+				}
+			}
+			return true
+		})
+		b("signature_verifier_passes_submitted_bytes", okParam)
+		tf2, err := c.Parse("x/evm/types/turnstone_abi.go")
+		if err != nil {
+			return err
+		}
+		bc := FindFunc(tf2, "", "BuildCompassConsensus")
+		if bc == nil {
+			return fmt.Errorf("BuildCompassConsensus not found")
+		}
+		b("compass_consensus_reads_byte_64", strings.Contains(c.Src(bc.Body), "sig.Signature[64]"))
+	}
+
 	// ---- x/evm: relay weights are validated when they are set ----
 	{
 		kf2, err := c.Parse("x/evm/keeper/keeper.go")
